@@ -251,7 +251,7 @@ func runTLS(c *Case) *Result {
 			}
 			if i < len(segs)-1 {
 				// let the server consume this segment before the next one arrives
-				d.waitFor(20*time.Second, func() bool { return (d.srvWaiting && len(d.toServer) == 0) || d.srvClosed })
+				d.waitFor(hangTimeout(), func() bool { return (d.srvWaiting && len(d.toServer) == 0) || d.srvClosed })
 			}
 		}
 		one := make([]byte, 1)
@@ -314,10 +314,10 @@ func runTLS(c *Case) *Result {
 		idle := d.cliDone || (d.cliWaiting && len(d.toClient) == 0)
 		return idle && (d.srvClosed || (d.srvWaiting && len(d.toServer) == 0)) && len(d.toClient) == 0
 	}
-	ok := d.waitFor(20*time.Second, quiet)
+	ok := d.waitFor(hangTimeout(), quiet)
 	// the client's reader may be between "record received" and "plaintext recorded": settle
 	time.Sleep(200 * time.Microsecond)
-	ok = ok && d.waitFor(20*time.Second, quiet)
+	ok = ok && d.waitFor(hangTimeout(), quiet)
 	r := &Result{Alloc: -1}
 	d.mu.Lock()
 	switch {
@@ -343,7 +343,7 @@ func runTLS(c *Case) *Result {
 	r.Tap = tapVerdict(raw)
 	r.HS = hs
 	cliEnd{d}.Close()
-	d.waitFor(20*time.Second, func() bool { return d.srvClosed })
+	d.waitFor(hangTimeout(), func() bool { return d.srvClosed })
 	d.mu.Lock()
 	r.Fin = "0"
 	if d.srvClosed {
